@@ -64,6 +64,14 @@ func c08Jobs(tier string) []*Job {
 					jobs = append(jobs, job(sc, per))
 					idle := timedScen(fmt.Sprintf("C08-N%d-%s-dyn%d-idle", n, amevName(a), dyn), n, "C08", withAMEV(a), withDyn(dyn), withHeights(heights), withK(k), withHorizon(heights*4+2), withPool())
 					jobs = append(jobs, job(idle, per))
+					if n == 2 || n == 4 {
+						// an idle height (empty block at the maximum) followed by a busy one: the transaction appears at the
+						// instant of the empty proposal, in every order relative to it; maximum = 3 x minimum
+						for _, at := range []int{30_000, 12_500} {
+							mixed := timedScen(fmt.Sprintf("C08-N%d-%s-dyn30-idle-then-tx-at-%ds", n, amevName(a), at/1000), n, "C08", withAMEV(a), withDyn(30), withHeights(3), withK(k), withHorizon(3*4+2), withPool(), withNewTx(at))
+							jobs = append(jobs, job(mixed, per))
+						}
+					}
 					continue
 				}
 				jobs = append(jobs, job(sc, per))
@@ -545,8 +553,8 @@ func runC14(x *Explorer) (res *Result) {
 
 // detCheck runs the default schedule twice on fresh instances and compares the final state keys.
 func (w *World) detCheck() {
-	run := func() [2]uint64 {
-		v := newWorld(w.sc, newStats())
+	run := func() ([2]uint64, string) {
+		v := newWorldLogged(w.sc)
 		for {
 			evs := v.enabled()
 			if len(evs) == 0 || evs[0].Cost != 0 {
@@ -554,13 +562,14 @@ func (w *World) detCheck() {
 			}
 			v.apply(evs[0])
 		}
-		return v.key()
+		// the log carries every broadcast payload and timer call (like the explorer's own determinism guard)
+		return v.key(), strings.Join(v.log, "\n")
 	}
-	a := run()
+	a, la := run()
 	time.Sleep(3 * time.Millisecond)
-	b := run()
+	b, lb := run()
 	curWorld = w
-	if a != b {
+	if a != b || la != lb {
 		w.violate("C14", "C14/wall-clock-dependence/same-inputs-different-state", nil, "two executions of the default schedule with identical virtual inputs ended in different states")
 	}
 }
